@@ -523,6 +523,29 @@ def _cases(ctx, uberjob, rng, ins, MemStore, avs_state, first_scope, Node):
             _, e = attempt("render", variant, lambda: uberjob.render(plan, format="svg", **kw), "registry" in kw)
             if e is not None:
                 ctx.broke("uberjob.render(%s) could not run" % variant, {"error": repr(e)[:400]})
+        # 7b. the (plan, output_node) form of render's argument - what a dry run returns, or the caller's own pair - is not
+        # modified either, whatever level= / predicate= remove or group
+        if pi % 2 == 0:
+            try:
+                pair = uberjob.run(plan, output=out, registry=reg, dry_run=True, progress=None)
+            except Exception:
+                pair = None
+            for label, arg, target in (("dry-run pair", pair, pair[0] if pair else None), ("own pair", (plan, None), plan)):
+                if arg is None:
+                    continue
+                for variant, kw in (("level", {"level": rng.choice([0, 1])}), ("predicate", {"predicate": lambda u, d: type(u).__name__ == "Call"})):
+                    before = snap_plan(target)
+                    try:
+                        uberjob.render(arg, format="svg", **kw)
+                        oc = "ok"
+                    except Exception as e:
+                        oc = type(e).__name__
+                    d_ = diff(before, snap_plan(target))
+                    ctx.case(("\n".join(text), "render-pair", label, variant))
+                    ctx.count("outcome", "render-pair:%s:%s" % (variant, oc))
+                    if d_:
+                        ctx.fail("snapshot:render-pair:%s" % variant, "render(%s, %s=...) changed the plan it was given: %s" % (label, variant, d_),
+                                 dict(replay0, api="render", argument=label, diff=d_))
         # 8. four threads run the same plan concurrently
         if pi % 4 == 0:
             results = [None] * 4
